@@ -188,6 +188,14 @@ partial def showTy : Ty → String
     "(tagged " ++ encodeStr prop ++ String.join (bs.map (fun b =>
       " ((" ++ " ".intercalate (b.1.map showAtom) ++ ") " ++ encodeStr b.2 ++ ")")) ++ ")"
 
+partial def showJson : Json → String
+  | .null => "null"
+  | .bool b => "(b " ++ (if b then "1" else "0") ++ ")"
+  | .num d => "(n " ++ toString d.m ++ " " ++ toString d.e ++ ")"
+  | .str s => "(s " ++ encodeStr s ++ ")"
+  | .arr xs => "(a" ++ String.join (xs.map (" " ++ showJson ·)) ++ ")"
+  | .obj kvs => "(o" ++ String.join (kvs.map (fun kv => " (" ++ encodeStr kv.1 ++ " " ++ showJson kv.2 ++ ")")) ++ ")"
+
 def showTri : Tri → String
   | .accept => "accept" | .reject => "reject" | .laxZone => "lax"
 
@@ -240,6 +248,18 @@ def handlers : List (String × Handler) := [
         | some d => "ok " ++ showTy d
         | none => "err no such definition"
       | _, _, _, _, _ => "err args"
+    | _ => "err args"),
+  -- sem.dump <style> <routing> <fuel> <regex-table> <defs> <schema> <json>   (document = top context)
+  --   → ok <verdict> <declared 0|1> <dumped json>
+  ("sem.dump", fun
+    | [st, o, g, re, ds, s, v] =>
+      match style? st, opts? o, g.nat?, regex? re, defs? ds, schema? s, json? v with
+      | some st, some o, some g, some re, some ds, some s, some v =>
+        let D := trDefs st o ds
+        let t := tr st o .top s
+        "ok " ++ showTri (acceptsTy st re g D t v) ++ " " ++ (if declared st re g D t v then "1" else "0") ++ " " ++
+          showJson (dump st re g D t v)
+      | _, _, _, _, _, _, _ => "err args"
     | _ => "err args"),
   -- sem.accepts <style> <routing> <fuel> <regex-table> <defs> <schema> <json>   (document = top context)
   ("sem.accepts", fun
